@@ -42,13 +42,22 @@ struct Graph<'tcx> {
     /// (src, static def path)
     statics: Vec<(usize, String, bool)>,
     alloc_memo: HashMap<AllocId, std::rc::Rc<AllocSummary<'tcx>>>,
-    asm: HashSet<usize>,
+    asm: HashMap<usize, Vec<String>>,
     notes: Vec<String>,
 }
 
 fn sig_key<'tcx>(tcx: TyCtxt<'tcx>, sig: ty::PolyFnSig<'tcx>) -> String {
     let sig = tcx.instantiate_bound_regions_with_erased(sig);
     let sig = tcx.erase_and_anonymize_regions(sig);
+    let sig = tcx.try_normalize_erasing_regions(env(), ty::Unnormalized::new_wip(sig)).unwrap_or(sig);
+    if sig.abi() == rustc_abi::ExternAbi::RustCall && sig.inputs().len() == 2 {
+        // `<F as FnOnce<Args>>::call_once` shims stored as plain function pointers:
+        // the callable signature is fn(Args...) -> R
+        if let ty::Tuple(elems) = sig.inputs()[1].kind() {
+            let ins: Vec<String> = elems.iter().map(|t| format!("{t}")).collect();
+            return format!("fn({}) -> {}", ins.join(", "), sig.output());
+        }
+    }
     let ins: Vec<String> = sig.inputs().iter().map(|t| format!("{t}")).collect();
     format!("{}fn({}{}) -> {}", if sig.abi() == rustc_abi::ExternAbi::Rust { String::new() } else { format!("extern {:?} ", sig.abi()) }, ins.join(", "), if sig.c_variadic() { ", ..." } else { "" }, sig.output())
 }
@@ -259,6 +268,11 @@ impl<'a, 'tcx> Walker<'a, 'tcx> {
                 if fty.is_fn() {
                     let key = sig_key(tcx, fty.fn_sig(tcx));
                     self.g.reified.push((self.me, key, n, "const"));
+                } else if let ty::Closure(_, cargs) = fty.kind() {
+                    let sig = tcx.signature_unclosure(cargs.as_closure().sig(), rustc_hir::Safety::Safe);
+                    self.g.reified.push((self.me, sig_key(tcx, sig), n, "const"));
+                } else {
+                    self.g.notes.push(format!("function in constant with non-fn type {fty}"));
                 }
             }
         }
@@ -379,8 +393,9 @@ impl<'a, 'tcx> MirVisitor<'tcx> for Walker<'a, 'tcx> {
                 let ty = self.mono(place.ty(self.body, tcx).ty);
                 self.drop_use(ty, span, "drop");
             }
-            mir::TerminatorKind::InlineAsm { ref operands, .. } => {
-                self.g.asm.insert(self.me);
+            mir::TerminatorKind::InlineAsm { ref operands, template, .. } => {
+                let text: String = template.iter().map(|p| format!("{p}")).collect::<Vec<_>>().join("");
+                self.g.asm.entry(self.me).or_default().push(text);
                 for op in operands {
                     match *op {
                         mir::InlineAsmOperand::SymFn { ref value } => {
@@ -477,7 +492,12 @@ pub fn run(tcx: TyCtxt<'_>) -> J {
             "kind": J::s(kind),
             "dk": J::s(format!("{dk:?}")),
             "leaf": J::opt(leaf_reason(tcx, *inst).map(J::s)),
-            "asm": if g.asm.contains(&i) { J::Bool(true) } else { J::Null },
+            "asm": g.asm.get(&i).map_or(J::Null, |v| J::Arr(v.iter().map(|s| J::s(trunc(s.clone(), 400))).collect())),
+            "closure": inst.args.types().next().and_then(|t| match t.kind() {
+                ty::Closure(d, _) => Some(J::s(tcx.def_path_str(*d))),
+                ty::FnDef(d, _) => Some(J::s(format!("fn:{}", tcx.def_path_str(*d)))),
+                _ => None,
+            }).unwrap_or(J::Null),
             "sp": sp,
             "root": parent
         });
